@@ -14,7 +14,7 @@ def pick(rnd, i):
     return case, (lambda r: (PreservedOrderAllocator(n), POAllocM(n))), ""
 
 
-CHECK = ComponentCheck("C26", pick, drain=0)
+CHECK = ComponentCheck("C26", pick, drain=0, suite=(("PreservedOrderAllocator",), ("test/lib/test_allocators.py",)))
 shards, run_shard = CHECK.shards, CHECK.run_shard
 RULE = ("histories = hostile random alloc/free/free_idx/order/clear sequences for entries in {1,2,3,4,5,8}, freeing the oldest, newest or a random "
         "allocated identifier; `order` is read every possible cycle and must be a permutation whose prefix is the model's allocation order; "
